@@ -16,6 +16,9 @@ import RvModel.Lemmas.C05S
   `countsOf xs` = the counts of a data set, `lB a b = ln B(a, b)`, `Dlb a b s c = ln B(a+s, b+c) − ln B(a, b)`;
   `exSB` = the example prior (a posterior used as a prior): prefix `[Beta(2, 3), Beta(7/2, 1)]`, tail `UnitPowerLaw(5)`.
 
+  The last section proves C07's statement on this pair: `StickBreakingDiscrete::ln_f_stat` of the statistic of `xs` equals the sum
+  of the pointwise `ln_f`, from any realised state of the lazily extended `StickSequence` (model `sbdLnFStat` / `sbdLnF` on `Hand.Stick`).
+
   Convention of the code: the break `p_i` is the fraction of the remaining stick that is KEPT, an observation `x` passes breaks
   `< x` and fails break `x`; hence break `i` of the posterior is `Beta(α_i + #{x > i}, β_i + #{x = i})`.
 -/
@@ -304,6 +307,52 @@ theorem pp_normalised (sb : SB R) (hv : ValidSB sb) (x : Dos R) :
   exact exp_lnMR_unit _ hvp.1 _ hq y
 example : ValidSB exSB := exSB_valid
 
+/-! ## C07 on this pair — the likelihood computed from the statistic equals the sum of the pointwise log-densities
+
+  `breaks : ℕ → R` is the fixed stream of breaks the seeded generator of the `StickSequence` produces; `C19.SInv breaks s` says
+  the stored `ccdf` vector of the state `s` is a prefix of that stream (true of `Stick.init`, i.e. a fresh sequence, and
+  preserved by every call: `Lemmas/C19Stick.lean`).  The theorems hold from ANY such state: the value does not depend on
+  how far the lazily realised sequence happens to be realised. -/
+
+-- @site StickBreakingDiscrete.ln_f_stat
+/-- `ln_f_stat(stat of xs)` evaluated on any realised state = `Σ ln_f(x)` evaluated (in order) on any other realised state -/
+theorem ln_f_stat_eq_sum_ln_f (breaks : ℕ → R) (s t : Hand.Stick.S R) (hs : C19.SInv breaks s) (ht : C19.SInv breaks t)
+    (xs : List ℕ) :
+    (sbdLnFStat breaks s (Stat.ofData xs : Stat R).counts).1.val = (sbdSumLnF breaks t xs).1.val := by
+  show (sbdLnFStat breaks s (countsOf xs)).1.val = _
+  rw [sbdLnFStat_countsOf breaks s hs xs]
+  simp only [sbdSumLnF, sumRust_val, (sbdLnFs_spec breaks t ht xs).1]
+example : C19.SInv (fun _ => (⟨1 / 2⟩ : R)) Hand.Stick.init := C19.sinv_init _
+
+-- @site StickBreakingDiscrete.ln_f_stat
+/-- in particular on a FRESH sequence (nothing realised) against a fresh sequence -/
+theorem ln_f_stat_fresh_eq_sum_ln_f (breaks : ℕ → R) (xs : List ℕ) :
+    (sbdLnFStat breaks Hand.Stick.init (Stat.ofData xs : Stat R).counts).1.val
+      = (sbdSumLnF breaks Hand.Stick.init xs).1.val :=
+  ln_f_stat_eq_sum_ln_f breaks _ _ (C19.sinv_init breaks) (C19.sinv_init breaks) xs
+example : (sbdLnFStat (fun _ => (⟨1 / 2⟩ : R)) Hand.Stick.init (Stat.ofData [0, 2, 2] : Stat R).counts).1.val
+    = (sbdSumLnF (fun _ => (⟨1 / 2⟩ : R)) Hand.Stick.init [0, 2, 2]).1.val := ln_f_stat_fresh_eq_sum_ln_f _ _
+
+-- @site StickBreakingDiscrete.ln_f_stat
+/-- for ANY count vector (trailing zeros included): `ln_f_stat = Σ_{i < len} counts_i · ln w_i` with the true weights
+    `w_i = ccdf i − ccdf (i+1)`, from any realised state — hence the same value from any two states -/
+theorem ln_f_stat_state_independent (breaks : ℕ → R) (s t : Hand.Stick.S R) (hs : C19.SInv breaks s)
+    (ht : C19.SInv breaks t) (counts : List ℕ) :
+    (sbdLnFStat breaks s counts).1.val
+        = ∑ i ∈ Finset.range counts.length, (counts.getD i 0 : ℝ) * Real.log (Hand.Stick.weightFn breaks i).val
+      ∧ (sbdLnFStat breaks s counts).1.val = (sbdLnFStat breaks t counts).1.val
+      ∧ C19.SInv breaks (sbdLnFStat breaks s counts).2 := by
+  refine ⟨(sbdLnFStat_spec breaks s hs counts).1, ?_, (sbdLnFStat_spec breaks s hs counts).2⟩
+  rw [(sbdLnFStat_spec breaks s hs counts).1, (sbdLnFStat_spec breaks t ht counts).1]
+example : C19.SInv (fun _ => (⟨1 / 2⟩ : R)) Hand.Stick.init := C19.sinv_init _
+
+-- @site StickBreakingDiscrete.ln_f
+/-- `ln_f(x) = ln (ccdf x − ccdf (x+1))` from any realised state, and the state stays a prefix of the stream -/
+theorem ln_f_spec (breaks : ℕ → R) (s : Hand.Stick.S R) (hs : C19.SInv breaks s) (x : ℕ) :
+    (sbdLnF breaks s x).1.val = Real.log (Hand.Stick.weightFn breaks x).val ∧ C19.SInv breaks (sbdLnF breaks s x).2 :=
+  sbdLnF_spec breaks s hs x
+example : C19.SInv (fun _ => (⟨1 / 2⟩ : R)) Hand.Stick.init := C19.sinv_init _
+
 end C05S
 
 #print axioms C05S.posterior_no_data
@@ -336,3 +385,7 @@ end C05S
 #print axioms C05S.pp_cached
 #print axioms C05S.m_eq_exp_ln_m
 #print axioms C05S.pp_normalised
+#print axioms C05S.ln_f_stat_eq_sum_ln_f
+#print axioms C05S.ln_f_stat_fresh_eq_sum_ln_f
+#print axioms C05S.ln_f_stat_state_independent
+#print axioms C05S.ln_f_spec
